@@ -46,6 +46,11 @@ def budget(tier: str) -> Dict[str, Any]:
 def strategy_case(draw: Any) -> Dict[str, Any]:
     case = draw(filegen.file_case(countries=cli.COUNTRIES, hist=HIST, allow_from=False, flavours=FLAVOURS))
     case["from"] = None
+    if draw(st.integers(0, 3)) == 0:
+        boundary = draw(filegen.boundary_to_date(case))
+        if boundary:
+            case["to"] = boundary
+            case["to_on_utc_boundary"] = True
     return case
 
 
@@ -90,6 +95,8 @@ def evaluate(case: Dict[str, Any]) -> Outcome:
             out.skipped = "run_failed(C16)"
             return out
         to_d = model.parse_date(case.get("to"))
+        if case.get("to_on_utc_boundary"):
+            out.classes.add("to_date_between_own_and_utc_date_of_a_transaction")
         if to_d is not None:
             out.classes.add("with_to_date")
             # what has been consumed up to the to-date is selected here, by the event's own date, from a run without a to-date
